@@ -442,9 +442,11 @@ class CaseOracle:
         if best != () and len(path.split("/")) == len(m.bps[best]["prefix"].split("/")):
             cause = "path_equals_nest_prefix"
         exp = {"kind": "fallback", "fb": self.nearest_fallback(best), "allow": None, "status": 404, "cause": cause}
-        if m.bps[best]["domain"] is not None:
-            # inside a domain the documentation only says that the top-level fallback runs when *no guard* matches; which
-            # fallback owns an unmatched path below a matching guard is not specified: accept any fallback registered in
+        if m.bps[best]["domain"] is not None and not m.bps[best]["fallback"]:
+            # inside a domain the documentation only says that the top-level fallback runs when *no guard* matches. C07 itself
+            # says that the fallback of the innermost blueprint whose prefix/domain covers the request runs: when that
+            # blueprint registers a fallback of its own, that one is demanded; when it registers none, which fallback owns
+            # an unmatched path below a matching guard is not specified: accept any fallback registered in
             # that domain's subtree or inherited from an enclosing blueprint
             dom_root = best
             while m.bps[dom_root]["parent"] is not None and not m.bps[dom_root].get("own_domain"):
